@@ -221,7 +221,7 @@ def run(chk):
             # aborted / timeout
             chk.violation("update cycle did not terminate with success or an error: %s" % (impl[:2],), full)
             continue
-        res, log, store = impl[0]
+        res, log, store = impl[0][:3]
         if res[0] >= 900:
             chk.violation("update cycle timed out or failed in an unclassified way: %s" % res, full)
             continue
